@@ -8,7 +8,7 @@ EXTENDS Symbols, SymbolsUniverse, Json
 
 CONSTANTS MaxLen,        \* history length
           ExportFullLen, \* export every history up to this length ...
-          ExportFailing, \* ... and longer ones whose last step fails (TRUE) / only complete ones (FALSE)
+          ExportFailing, \* ... and longer ones whose last or last-but-one step fails (TRUE) / only complete ones (FALSE)
           ExportUniverse,
           Only           \* <<>>, or the one history to produce (replay of a saved case)
 
@@ -43,8 +43,11 @@ Init == /\ FDConsistent
         /\ hist = <<>>
         /\ (ExportUniverse => PrintT("CASE " \o ToJson(UsableCase)))
 
+(* a history is worth replaying if it is short, or ends in a failure, or ends right after a failure
+   (after a failed Import every other Import must behave as if it had not been attempted) *)
 Exported(h) == \/ Len(h) <= ExportFullLen
                \/ ExportFailing /\ ~h[Len(h)].ok
+               \/ ExportFailing /\ Len(h) >= 2 /\ ~h[Len(h) - 1].ok
                \/ ~ExportFailing /\ Len(h) = MaxLen
 
 Next == /\ Len(hist) < MaxLen
